@@ -59,7 +59,11 @@ type c32blk struct {
 	res     int64
 	dMax    int64 // MaxTime = base - retention(res) + dMax (ms); if retention(res)==0: base - 30d + dMax
 	hasMark bool
-	dMark   int64 // DeletionTime = floor((base - delay)/1s) + dMark (s)
+	// remarked (complete blocks with a mark only): an earlier mark, older than the delete delay by hours,
+	// was seen by one sync of the same filter object, then withdrawn (tools bucket unmark) and the
+	// current one written
+	remarked bool
+	dMark    int64 // DeletionTime = floor((base - delay)/1s) + dMark (s)
 	objs    []c32obj
 	markLM  int64 // last-modified offset of the deletion-mark.json object of a partial upload
 }
@@ -88,6 +92,9 @@ func (c *c32case) render() string {
 			fmt.Fprintf(&sb, " B%d{res=%d max%+d", b.n, b.res, b.dMax)
 			if b.hasMark {
 				fmt.Fprintf(&sb, " mark%+ds", b.dMark)
+				if b.remarked {
+					sb.WriteString("(re-marked)")
+				}
 			}
 			sb.WriteString("}")
 		}
@@ -174,6 +181,9 @@ func runC32(c *c32case, tolerateTrunc, toleratePartialMark bool) (string, c32out
 		}
 		if b.hasMark {
 			dt := (baseMs-int64(c.delay/time.Millisecond))/1000 + b.dMark
+			if b.remarked {
+				dt = (baseMs-int64(c.delay/time.Millisecond))/1000 - 5*3600 // the earlier, withdrawn mark
+			}
 			if err := bkt.putDeletionMark(id, dt); err != nil {
 				return "harness: " + err.Error(), out
 			}
@@ -217,6 +227,29 @@ func runC32(c *c32case, tolerateTrunc, toleratePartialMark bool) (string, c32out
 		}
 		sort.Strings(l)
 		return l
+	}
+
+	// ---- stage 0: blocks whose mark was withdrawn and written again since the previous sync
+	anyRemarked := false
+	for _, b := range c.blocks {
+		anyRemarked = anyRemarked || (b.hasMark && b.remarked)
+	}
+	if anyRemarked {
+		if err := sy.SyncMetas(ctx); err != nil {
+			return "harness: sync: " + err.Error(), out
+		}
+		for i, b := range c.blocks {
+			if !(b.hasMark && b.remarked) {
+				continue
+			}
+			if err := bkt.mem.Delete(ctx, path.Join(ids[i].String(), metadata.DeletionMarkFilename)); err != nil {
+				return "harness: " + err.Error(), out
+			}
+			if err := bkt.putDeletionMark(ids[i], (baseMs-int64(c.delay/time.Millisecond))/1000+b.dMark); err != nil {
+				return "harness: " + err.Error(), out
+			}
+		}
+		out.classes["mark-withdrawn-and-rewritten"] = true
 	}
 
 	// ---- stage 1: cleaner
@@ -457,6 +490,9 @@ func genC32(rt *rapid.T) *c32case {
 				b.dMark = int64(rapid.IntRange(-3, 3).Draw(rt, "markH")) * 3600
 			default:
 				b.dMark = int64(rapid.IntRange(-3, 3).Draw(rt, "markS"))
+			}
+			if !b.partial && rapid.IntRange(0, 3).Draw(rt, "remarked") == 0 {
+				b.remarked = true
 			}
 			if b.partial {
 				b.markLM = near("markLM")
